@@ -13,7 +13,7 @@ BOUNDS = {
     'quick': 'corpora of 1-2 lines with 1-3 words of 1-4 symbolic letters (at most 6 letters in total) over {a, b, c} (so that pairs overlap, repeat inside '
              'words and the corpus is exhausted before the requested number of merges); requested merges 0-5 (vocab_size 320, '
              'num_special_tokens 59-64) and vocab_size 256; normalization None; 1 or 2 counting threads (sequentialised, message '
-             'order arbitrary)',
+             'order arbitrary); corpora spread over 1-2 files with max_lines_per_file 1 or 2 (five layouts of 2-3 lines)',
     'thorough': 'up to 3 lines, words of up to 5 letters (at most 7 letters in total), up to 6 merges',
 }
 OUTSIDE = ['NFKC normalisation, real files, msgpack encoding of the table (captured in memory)', 'HashMap iteration order: the '
@@ -36,8 +36,20 @@ def shapes(tier):
         for merges in ((0, 1, 2, 3, 5) if tier == 'quick' else (0, 1, 2, 3, 4, 6)):
             out.append({'layout': lay, 'merges': merges, 'vocab': 320, 'threads': 2 if len(lay) > 1 else 1})
         out.append({'layout': lay, 'merges': 0, 'vocab': 256, 'threads': 1})
+    # several files and max_lines_per_file: the corpus is the first k lines of every file
+    for lay, files, k in (([[2], [2]], [[0], [1]], 1), ([[2], [2]], [[0, 1]], 1), ([[2], [2], [2]], [[0, 1], [2]], 1),
+                          ([[2], [2], [1, 1]], [[0], [1, 2]], 1), ([[2], [3]], [[0], [1]], 2)):
+        for merges in (1, 2):
+            out.append({'layout': lay, 'merges': merges, 'vocab': 320, 'threads': 2, 'files': files, 'max_lines': k})
     out.sort(key=lambda s: -(sum(sum(l) for l in s['layout']) * 2 + s['merges']))
     return out
+
+
+def effective_lines(shape):
+    """indices of the lines that belong to the corpus: the first max_lines_per_file lines of every file, in file order"""
+    if not shape.get('files'):
+        return list(range(len(shape['layout'])))
+    return [li for g in shape['files'] for li in g[:shape['max_lines']]]
 
 
 def setup_machine(machine, shape, opts):
@@ -116,10 +128,19 @@ def run(ctx, shape, opts):
                 chars.append(SPACE)
             chars.extend(w)
         return StringObj(StrBuf(chars, [1] * len(chars)))
-    m.files['corpus'] = [line_string(ws) for ws in lines]
     nst = (shape['vocab'] - 256) - shape['merges']
-    r = m.call('train_bpe', SliceRef([m.str_lit('corpus')], 0, 1), Int(shape['vocab'], 'usize'), Int(nst, 'usize'), m.str_lit('merges.bin'),
-               NONE(), NONE(), Int(shape['threads'], 'u8'), False)
+    if shape.get('files'):
+        names = []
+        for fi, g in enumerate(shape['files']):
+            m.files['corpus%d' % fi] = [line_string(lines[li]) for li in g]
+            names.append(m.str_lit('corpus%d' % fi))
+        r = m.call('train_bpe', SliceRef(names, 0, len(names)), Int(shape['vocab'], 'usize'), Int(nst, 'usize'), m.str_lit('merges.bin'),
+                   Some(Int(shape['max_lines'], 'usize')), NONE(), Int(shape['threads'], 'u8'), False)
+        lines = [lines[li] for li in effective_lines(shape)]
+    else:
+        m.files['corpus'] = [line_string(ws) for ws in lines]
+        r = m.call('train_bpe', SliceRef([m.str_lit('corpus')], 0, 1), Int(shape['vocab'], 'usize'), Int(nst, 'usize'), m.str_lit('merges.bin'),
+                   NONE(), NONE(), Int(shape['threads'], 'u8'), False)
     ctx.require(r.variant == 'Ok', 'train_bpe succeeds')
     ctx.require(m.captured_table is not None, 'train_bpe writes a merge table')
     table = [(e[0], e[1]) for e in m.captured_table.entries]
@@ -167,7 +188,8 @@ def _lines_py(shape, inputs):
 
 def _native(native, shape, inputs):
     nst = (shape['vocab'] - 256) - shape['merges']
-    return native_ok(native.call('train_bpe', lines=_lines_py(shape, inputs), vocab=shape['vocab'], nst=nst, threads=shape['threads'], _timeout=30.0))
+    extra = {'files': shape['files'], 'max_lines': shape['max_lines']} if shape.get('files') else {}
+    return native_ok(native.call('train_bpe', lines=_lines_py(shape, inputs), vocab=shape['vocab'], nst=nst, threads=shape['threads'], _timeout=30.0, **extra))
 
 
 def native_outputs(native, shape, inputs):
@@ -199,7 +221,8 @@ def _concrete_check_once(native, inputs, shape):
     if n > shape['merges']:
         failed.append('at most the requested number of merges')
     words = {}
-    for ln in _lines_py(shape, inputs):
+    all_lines = _lines_py(shape, inputs)
+    for ln in [all_lines[li] for li in effective_lines(shape)]:
         for kk, w in enumerate(ln.split(' ')):
             key = ((b' ',) if kk else ()) + tuple(bytes([b]) for b in w.encode())
             words[key] = words.get(key, 0) + 1
